@@ -23,7 +23,7 @@ def run(tier, replay=None):
     for f in res["failures"]:
         ck.failure(f["signature"], f["what"], {"input": f["input"]})
 
-    mism, smism = None, None
+    mism, smism, emism, gmism = None, None, None, None
     if ck.coq_ok:
         hdr = "From Coq Require Import NArith.\nFrom Errors Require Import Model Run.\nOpen Scope string_scope."
         lines = open(os.path.join(ck.work, "cases_merge.txt")).read().splitlines()
@@ -35,6 +35,10 @@ def run(tier, replay=None):
         hmism = ck.coq_eval_cases(hlines, hhdr, "N * hstate * list op * list vobs", "heap_mismatches", tag="heap")
         clines = open(os.path.join(ck.work, "cases_client.txt")).read().splitlines()
         cmism = ck.coq_eval_cases(clines, hhdr, "N * nat * bool * bool * bool", "client_mismatches", shards=2, tag="client")
+        elines = open(os.path.join(ck.work, "cases_encode.txt")).read().splitlines()
+        emism = ck.coq_eval_cases(elines, hhdr, "N * fmtsel * eshape * writer", "encode_mismatches", tag="encode")
+        glines = open(os.path.join(ck.work, "cases_grpcshape.txt")).read().splitlines()
+        gmism = ck.coq_eval_cases(glines, hhdr, "N * eshape * grpc_code * string * core", "grpcshape_mismatches", tag="grpcshape")
         if hmism is not None and cmism is not None and smism is not None:
             smism = smism + [10000 + x for x in hmism] + [20000 + x for x in cmism]
     if not ck.coq_ok:
@@ -42,6 +46,12 @@ def run(tier, replay=None):
             ck.unproved("the Errors development no longer checks: " + ck.coq_error,
                         {"broken": "coq/Errors build", "detail": ck.coq_error})
     else:
+        if (emism or gmism) and not ck.violations:
+            extra = res.get("extra", {})
+            first = {"input": extra["encode_cases"][emism[0]]} if emism else {"input": {"grpc_shape": extra["grpc_shapes"][gmism[0]]}}
+            first.update({"broken": "correspondence error_encoder (formatter) fid shape fresh_writer = observed recorder / grpc_encode shape = observed status",
+                          "mismatching_encode_case_indexes": (emism or [])[:50], "mismatching_grpc_shape_indexes": (gmism or [])[:50]})
+            ck.unproved("correspondence Errors.error_encoder / grpc_encode vs http/encoding.go ErrorEncoder, http/error.go, grpc/error.go broke on %d encoder case(s) and %d gRPC shape(s); the documented table held on every case explored" % (len(emism or []), len(gmism or [])), first)
         if (mism or smism) and not ck.violations:
             first = res["cases"][mism[0]] if mism else {"status_row": smism[0]}
             ck.unproved("correspondence Errors.merge_tree / status tables vs pkg/error.go, http/error.go, grpc/error.go broke on %d merge case(s) and %d status row(s); the property's own laws held on every case explored" % (len(mism), len(smism)),
@@ -50,10 +60,11 @@ def run(tier, replay=None):
                          "first_disagreeing_history": (res.get("extra", {}).get("heap_cases") or [None])[[x - 10000 for x in smism if 10000 <= x < 20000][0]] if [x for x in smism if 10000 <= x < 20000] else None})
     cov = {"evaluations": res["evaluations"], "distinct_nontrivial": res["distinct_nontrivial"], "rule": res["rule"],
            "samples": res["samples"], "distribution": res["distribution"],
-           "model_mismatches": (len(mism or []) + len(smism or [])) if ck.coq_ok else None,
+           "model_mismatches": (len(mism or []) + len(smism or []) + len(emism or []) + len(gmism or [])) if ck.coq_ok else None,
            "exhaustive": False}
     return ck.finish(cov, assumptions=[
-        "model Errors/Model.v is hand-written from pkg/error.go, http/error.go, grpc/error.go; tied by evaluating merge_tree / http_status / grpc_code_of inside Coq on every case the real code ran",
+        "model Errors/Model.v is hand-written from pkg/error.go, http/error.go, grpc/error.go; tied by evaluating merge_tree / http_status / grpc_code_of / error_encoder / grpc_encode inside Coq on every case the real code ran",
+        "model of http.ErrorEncoder (Errors.error_encoder) is hand-written from http/encoding.go; the response writer is modelled by its first status, the bodies encoded and the number of WriteHeader calls; body encoders (JSON, XML) are exercised, not modelled; errors are modelled by shape (plain / service / wrapper / join), a wrapper type's Error() is taken to be ctx + \": \" + inner",
         "identifiers drawn by NewErrorID for non-ServiceError leaves are projected away",
         "protobuf status details transport (grpc status.WithDetails / Details) is exercised, not modelled"],
         trusted_base=["harness/cmd/c18 (case generation, observation, Coq term printing)", "decidable equality obs_eq_dec (by decide equality, Defined)"])
